@@ -104,6 +104,24 @@ fn real_main(args: &[String]) -> i32 {
             }
             0
         }
+        "staged" => {
+            // vmon staged <deco>[+opt...] <width>   parse_html -> dom_to_render_tree -> render_to_string(clone) (debugging aid)
+            use std::io::Read;
+            let spec = args.get(2).cloned().unwrap_or_else(|| "plain".into());
+            let width: usize = args.get(3).and_then(|s| s.parse().ok()).unwrap_or(80);
+            let cfg = parse_cfg(&spec);
+            let mut input = Vec::new();
+            std::io::stdin().read_to_end(&mut input).unwrap();
+            exec::install_panic_hook();
+            match exec::render_staged(&cfg, &input, &[width]) {
+                exec::Outcome::Ok(v) => match &v[0].0 {
+                    exec::Outcome::Ok(s) => print!("{}", s),
+                    o => println!("{}", o.kind()),
+                },
+                o => println!("{}", o.kind()),
+            }
+            0
+        }
         "shrink" => {
             // vmon shrink <ID> <deco>[+opt...] <width> [sig-prefix]   (HTML on stdin; debugging aid)
             // Delta-debugs the input while the monitor's per-document judge keeps
